@@ -112,6 +112,15 @@ def infeas_cert(hyp, names, box=False):
     zero = {"co": {}, "c": 0, "k": 1}
     if not farkas_fits(allrows, names, zero, 1, lam_int):
         STATS["overflow"] += 1
+        # the solver is free to use rows of large magnitude whose products do not fit 32 bits: ask again with the small rows only
+        small = [i for i, r in enumerate(allrows) if max([abs(r["c"]), r["k"]] + [abs(a) for a in r["co"].values()]) <= 10000]
+        if 0 < len(small) < len(allrows):
+            L2 = _solve_lambda([allrows[i] for i in small], names, {}, F(-1))
+            if L2 is not None:
+                mu2 = _lcm(L2)
+                lam2 = {small[i]: int(L2[i] * mu2) for i in range(len(L2)) if L2[i] != 0}
+                if farkas_fits(allrows, names, zero, 1, lam2):
+                    return {"kind": "infeasible", "mu": 1, "lam": {str(i + 1): v for i, v in lam2.items()}, "d": 1, "q": {}}
         return None
     return {"kind": "infeasible", "mu": 1, "lam": {str(i + 1): v for i, v in lam_int.items()}, "d": 1, "q": {}}
 
